@@ -436,7 +436,7 @@ func ParserDriverMain(pkgs []string) string {
 
 // GuardSeconds is the wall-clock guard per parse in the driver (a string because it is pasted
 // into the driver's source).
-var GuardSeconds = "10"
+var GuardSeconds = "6"
 
 // Result mirrors the generated package's Result.
 type Result struct {
